@@ -40,14 +40,6 @@ Lemma bool_eqb_refl : forall b, Bool.eqb b b = true. Proof. destruct b; reflexiv
 
 (* ------------------------------------------------------------------ pieces *)
 
-Lemma published_id : forall {A} hs (xs : list A),
-  existsb m_ns hs = false -> length xs = length hs -> published hs xs = xs.
-Proof.
-  induction hs as [|m r IH]; intros xs Hn Hl; destruct xs as [|x xs]; try discriminate; [reflexivity|].
-  cbn [existsb] in Hn. apply orb_false_iff in Hn as [Hm Hr]. cbn [published]. rewrite Hm.
-  f_equal. apply IH; [exact Hr|]. now injection Hl.
-Qed.
-
 Lemma spec_sig_sig_of : forall t, spec_sig t = sig_of t.
 Proof.
   induction t using ty_ind'; try reflexivity; cbn [spec_sig sig_of]; now rewrite ?IHt.
@@ -60,37 +52,12 @@ Proof.
   f_equal. lia.
 Qed.
 
-(* the id rule of the oracle and of the macro coincide outside class 1 *)
-Definition ids_clean (h : shead) (m : mhead) : bool :=
-  if m_hashid m then true
-  else match s_ext h with Mutable => true | _ => match m_id m with None => true | Some _ => false end end.
-
+(* the id rule of the oracle and of the macro coincide (fixes 470723e, 7ee9e78) *)
 Lemma spec_ids_struct_ids : forall h ms idx next,
-  forallb (ids_clean h) ms = true ->
   spec_ids_from h idx next ms = struct_ids_from h idx next ms.
 Proof.
-  intros h. induction ms as [|m r IH]; intros idx next H; [reflexivity|].
-  cbn [forallb] in H. apply andb_true_iff in H as [Hm Hr]. cbn [spec_ids_from struct_ids_from].
-  unfold ids_clean in Hm. destruct (m_hashid m) eqn:Hh.
-  - rewrite hash_id28_hash_id. f_equal. now apply IH.
-  - destruct (s_ext h) eqn:Hx.
-    + destruct (m_id m); [discriminate|]. f_equal. now apply IH.
-    + destruct (m_id m); [discriminate|]. f_equal. now apply IH.
-    + destruct (m_id m); (f_equal; now apply IH).
-Qed.
-
-(* class 1 of the correspondence is exactly the negation of [ids_clean] *)
-Lemma class_1_clean : forall h ms,
-  kn_explicit_id_ignored (TStruct h ms) = false -> forallb (ids_clean h) (map fst ms) = true.
-Proof.
-  intros h ms H1. cbn [kn_explicit_id_ignored] in H1.
-  induction ms as [|[m t] r IH]; [reflexivity|].
-  cbn [map fst forallb]. rewrite IH.
-  - rewrite andb_true_r. unfold ids_clean. destruct (m_hashid m) eqn:Hh; [reflexivity|].
-    destruct (s_ext h); try reflexivity;
-      (cbn [existsb fst] in H1; apply orb_false_iff in H1 as [H1m _]; rewrite Hh in H1m; cbn [negb andb] in H1m;
-       destruct (m_id m); [discriminate|reflexivity]).
-  - destruct (s_ext h); try exact H1; (cbn [existsb] in H1; apply orb_false_iff in H1 as [_ H1]; exact H1).
+  intros h. induction ms as [|m r IH]; intros idx next; [reflexivity|].
+  cbn [spec_ids_from struct_ids_from]. rewrite hash_id28_hash_id. f_equal. apply IH.
 Qed.
 
 (* ------------------------------------------------- round trips (any declared type) *)
@@ -109,7 +76,8 @@ Lemma forallb_map' : forall {A B} (f : A -> B) (p : B -> bool) l, forallb p (map
 Proof. induction l; cbn; [reflexivity|]. now rewrite IHl. Qed.
 
 Lemma rt_checks_ok : forall t vs (k1 k2 : N),
-  wf_ty t = true -> is_complex t = true -> kn_ns t = false ->
+  wf_ty t = true -> is_complex t = true ->
+  (ser_judged t = false \/ Forall (fun p => snd p = true) vs) ->
   Forall (fun p => has_type t (fst p) = true) vs ->
   forallb fst
     (map (fun r => (match rt_dyn r with
@@ -120,7 +88,7 @@ Lemma rt_checks_ok : forall t vs (k1 k2 : N),
                     | Panic _ => exposes_none t (rt_v r)
                     | Err _ => false
                     end, k1)) (map (model_rt t) vs)
-     ++ map (fun r => (match rt_dyn r with Ok _ => negb (kn_ns t) || rt_ser r | _ => true end, k2))
+     ++ map (fun r => (match rt_dyn r with Ok _ => negb (ser_judged t) || rt_ser r | _ => true end, k2))
             (map (model_rt t) vs)) = true.
 Proof.
   intros t vs k1 k2 Hwf Hc Hns Hvs. rewrite forallb_app, !map_map, !forallb_map'. apply andb_true_iff. split.
@@ -129,60 +97,48 @@ Proof.
     destruct (to_dyn_cases t (fst p) Hwf Hc Hvs) as [[He Hd]|[He [d Hd]]]; rewrite Hd.
     + exact He.
     + rewrite (derive_roundtrip_total t (fst p) Hwf Hc Hvs), He. cbn [back_eqb]. apply value_eqb_refl.
-  - rewrite forallb_forall. intros p Hp. cbn [fst rt_dyn model_rt]. rewrite Hns.
-    destruct (to_dyn t (fst p)); reflexivity.
+  - rewrite forallb_forall. intros p Hp. cbn [fst rt_dyn rt_ser model_rt].
+    destruct (to_dyn t (fst p)); try reflexivity. destruct Hns as [Hns|Hser].
+    + now rewrite Hns.
+    + rewrite Forall_forall in Hser. rewrite (Hser p Hp). apply orb_true_r.
 Qed.
 
 (* ------------------------------------------------------------------ structs *)
 
-Lemma existsb_map_fst : forall {A B} (f : A -> bool) (l : list (A * B)),
-  existsb (fun m => f (fst m)) l = existsb f (map fst l).
-Proof. induction l; cbn; [reflexivity|]. now rewrite IHl. Qed.
-
-Lemma kn_ns_here : forall t, kn_ns t = false -> ns_here t = false.
-Proof. intros t H. unfold kn_ns in H. destruct t; cbn [any_ty] in H; apply orb_false_iff in H as [H _]; exact H. Qed.
-
+(* [vs]: values with the verdict of the (unmodelled) serializer; the regression check on
+   non_serialized members only looks at it when the declaration has such a member *)
 Theorem oracle_sound_struct : forall h ms d vs,
   describe (TStruct h ms) = Some d -> wf_ty (TStruct h ms) = true ->
-  kn_explicit_id_ignored (TStruct h ms) = false -> kn_ns (TStruct h ms) = false ->
+  (ser_judged (TStruct h ms) = false \/ Forall (fun p => snd p = true) vs) ->
   Forall (fun p => has_type (TStruct h ms) (fst p) = true) vs ->
   C40_oracle_ok (model_case (TStruct h ms) d vs) = true.
 Proof.
-  intros h ms d vs Hd Hwf Hk1 Hns Hvs.
+  intros h ms d vs Hd Hwf Hns Hvs.
   unfold C40_oracle_ok, C40_checks, model_case. cbn [c_ty c_desc c_rts].
   rewrite forallb_app. apply andb_true_iff. split; [|now apply rt_checks_ok].
   destruct (describe_struct h ms) as (d' & Hd' & Hkind & Hname & Hext & Hnest & _ & Hn & Hid & Hix & Hty & Hkey & Hopt & Hmu & Htc).
   rewrite Hd in Hd'. injection Hd' as <-.
-  assert (Hnsh := kn_ns_here _ Hns). cbn [ns_here] in Hnsh. rewrite existsb_map_fst in Hnsh.
-  assert (Hlen : length (map fst ms) = length ms) by apply map_length.
-  assert (Hpub : forall A (xs : list A), length xs = length ms -> published (map fst ms) xs = xs).
-  { intros A xs Hl. apply published_id; [exact Hnsh|]. now rewrite Hlen. }
-  cbv zeta. cbn [forallb fst].
+  cbv zeta in *. cbn [forallb fst].
   rewrite Hkind, Hname, Hext, Hnest, Hn, Hid, Hix, Hty, Hkey, Hopt, Hmu, Htc.
   rewrite Z.eqb_refl, String.eqb_refl, ext_eqb_refl, bool_eqb_refl. cbn [andb].
-  (* names *)
-  rewrite Hpub.
-  2:{ clear. generalize 0%nat. induction ms as [|m r IH]; intros k; [reflexivity|]. cbn. now rewrite IH. }
-  rewrite (list_eqb_refl String.eqb) by apply String.eqb_refl. cbn [andb].
-  (* indices *)
-  rewrite (Hpub _ (map fst ms)) by exact Hlen. rewrite Hlen.
-  rewrite (list_eqb_refl Z.eqb) by apply Z.eqb_refl. cbn [andb].
-  (* key / optional / must-understand / try_construct *)
-  rewrite !Hpub by (rewrite !map_length; reflexivity).
-  rewrite <- !map_map with (f := fst).
-  rewrite !(list_eqb_refl Bool.eqb) by apply bool_eqb_refl.
-  rewrite ?map_map. rewrite (list_eqb_refl tck_eqb) by apply tck_eqb_refl. cbn [andb].
-  (* member types *)
   assert (Hsig : map (fun m : mhead * ty => spec_sig (snd m)) ms = map (fun m => sig_of (snd m)) ms).
   { apply map_ext. intros m. apply spec_sig_sig_of. }
-  rewrite Hsig. rewrite (list_eqb_refl tsig_eqb) by apply tsig_eqb_refl. cbn [andb].
-  (* ids *)
-  unfold struct_ids.
-  rewrite (spec_ids_struct_ids h (map fst ms) 0 0 (class_1_clean h ms Hk1)).
-  rewrite Hpub by (rewrite struct_ids_from_length; exact Hlen).
-  rewrite (list_eqb_refl Z.eqb) by apply Z.eqb_refl. cbn [andb].
-  (* distinct *)
-  cbn [wf_ty] in Hwf. apply andb_true_iff in Hwf as [Hnd _]. unfold struct_ids in Hnd. rewrite Hnd. reflexivity.
+  rewrite Hsig. unfold struct_ids. rewrite spec_ids_struct_ids.
+  rewrite (list_eqb_refl String.eqb) by apply String.eqb_refl.
+  rewrite !(list_eqb_refl Z.eqb) by apply Z.eqb_refl.
+  rewrite !(list_eqb_refl Bool.eqb) by apply bool_eqb_refl.
+  rewrite (list_eqb_refl tck_eqb) by apply tck_eqb_refl.
+  rewrite (list_eqb_refl tsig_eqb) by apply tsig_eqb_refl. cbn [andb].
+  (* distinct: the published ids are a sub-list of the distinct ids *)
+  cbn [wf_ty] in Hwf. apply andb_true_iff in Hwf as [Hnd _]. unfold struct_ids in Hnd.
+  rewrite andb_true_r. apply nodupb_NoDup. apply nodupb_NoDup in Hnd.
+  assert (Hl : length (struct_ids_from h 0 0 (map fst ms)) = length (map fst ms)) by apply struct_ids_from_length.
+  revert Hnd Hl. generalize (struct_ids_from h 0 0 (map fst ms)). generalize (map fst ms). clear.
+  induction l as [|m r IH]; intros [|x xs] Hnd Hl; try discriminate; cbn [published]; try constructor.
+  inversion Hnd as [|? ? Hx Hr]; subst. injection Hl as Hl.
+  destruct (m_ns m); [now apply IH|]. constructor; [|now apply IH].
+  intro Hin. apply Hx. clear - Hin. revert xs Hin. induction r as [|m' r IHr]; intros [|y ys] Hin; cbn [published] in Hin; try contradiction.
+  destruct (m_ns m'); [right; now apply IHr|]. destruct Hin as [->|Hin]; [now left|right; now apply IHr].
 Qed.
 
 (* ------------------------------------------------------------------- unions *)
@@ -216,14 +172,13 @@ Qed.
 
 Theorem oracle_sound_union : forall h vs d rs,
   describe (TUnion h vs) = Some d -> wf_ty (TUnion h vs) = true ->
-  kn_ns (TUnion h vs) = false ->
   forallb (fun v => forallb in_i32b (v_cases (fst v))) vs = true ->
   Forall (fun p => has_type (TUnion h vs) (fst p) = true) rs ->
   C40_oracle_ok (model_case (TUnion h vs) d rs) = true.
 Proof.
-  intros h vs d rs Hd Hwf Hns Hrange Hrs.
+  intros h vs d rs Hd Hwf Hrange Hrs.
   unfold C40_oracle_ok, C40_checks, model_case. cbn [c_ty c_desc c_rts].
-  rewrite forallb_app. apply andb_true_iff. split; [|now apply rt_checks_ok].
+  rewrite forallb_app. apply andb_true_iff. split; [|apply rt_checks_ok; auto].
   destruct (describe_union h vs) as (dm & vm & Hd' & Hdn & Hdi & Hdk & Hdmu & Hdt & Hn & Hid & Hdl & Hty & Hlab).
   rewrite Hd in Hd'. injection Hd' as ->.
   cbv zeta. cbn [forallb fst td_kind td_name td_ext td_nested td_disc td_members tl map].
@@ -252,8 +207,8 @@ Proof.
   intros e d vs Hd Hwf Hne Hvs.
   rewrite describe_enum in Hd. injection Hd as <-.
   assert (Hrt := rt_checks_ok (TEnum e) vs
-                   (if kn_dup_ids (TEnum e) then 3%N else cls (kn_bad_union (TEnum e)) 5) (cls (kn_ns (TEnum e)) 6)
-                   Hwf eq_refl eq_refl Hvs).
+                   (if kn_dup_ids (TEnum e) then 3%N else cls (kn_bad_union (TEnum e)) 5) (cls (kn_dup_ids (TEnum e)) 3)
+                   Hwf eq_refl (or_introl eq_refl) Hvs).
   unfold C40_oracle_ok, C40_known, C40_checks, model_case. cbn [c_ty c_desc c_rts].
   cbn [td_kind td_name td_nested td_disc td_members map].
   rewrite Z.eqb_refl, String.eqb_refl, bool_eqb_refl. cbn [opt_eqb]. rewrite tsig_eqb_refl. cbn [andb].
